@@ -599,3 +599,51 @@ def shape_scripts(edges, ds, dl, keep=lambda i, e: True, flags_of=lambda i, e: 0
         a["flags"] = flags_of(i, e)
         out.append(setup_cmds(e["kinds"], ds, dl) + [act_to_cmd(a)])
     return out
+
+
+# ----------------------------------------------------------------------------------------------
+# replay of a stored violation (check.py <ID> --replay file)
+# ----------------------------------------------------------------------------------------------
+def event_to_cmd(ev):
+    """inverse of the driver's logging: recorded event -> driver command"""
+    n = ev["e"]
+    a = {"name": n, "t": ev.get("t", -1), "a": ev.get("a", -1), "b": ev.get("b", -1), "op": ev.get("op", ""), "w": ev.get("w", ""),
+         "d": ev.get("d", 0), "e": ev.get("ee", 0), "c": ev.get("c", 0), "arv": ev.get("arv", False), "brv": ev.get("brv", False),
+         "fail": ev.get("fail", 0), "flags": ev.get("flags", 0)}
+    if n in ("Reset", "End"):
+        return None
+    return act_to_cmd(a)
+
+
+def replay(v, path, flavor="plain"):
+    """re-execute the call sequences stored in a replay file on the current tree and validate them again"""
+    with open(path) as f:
+        rp = json.load(f)
+    exe = build_driver(flavor)
+    scripts = []
+    for x in rp.get("violations", []):
+        r = x.get("replay") or {}
+        seg = r.get("segment")
+        if not seg:
+            continue
+        cmds = []
+        for raw in seg:
+            ev = json.loads(raw) if isinstance(raw, str) else raw
+            c = event_to_cmd(ev)
+            if c:
+                cmds.append(c)
+        if r.get("cmd") and r["cmd"] != "RESET":
+            cmds.append(r["cmd"])
+        scripts.append(cmds)
+    if not scripts:
+        raise Infra("replay file holds no call sequence")
+    allsegs = []
+    for sc in scripts:
+        segs, info = run_paths(exe, [sc])
+        crash_violation(v, info)
+        allsegs += segs
+    m, a, rej = validate(allsegs, "replay", nblk=48, batch=50)
+    report_rejections(v, rej)
+    v.add("states", max(1, m)); v.add("transitions", max(1, m)); v.add("traces_validated_against_impl", a)
+    v.sample({"replayed_scripts": scripts[:3]})
+    return "model_checking"
